@@ -7,6 +7,7 @@ func init() {
 	Registry["C02"] = C02
 	Registry["C03"] = C03
 	Registry["C04"] = C04
+	Registry["C05"] = C05
 	Registry["C16"] = C16
 	Registry["C17"] = C17
 }
